@@ -676,12 +676,14 @@ Qed.
 
 Lemma scaled_step o q st : scaled q st -> exists q', scaled q' (fst (STEP o st)).
 Proof.
-  intros H. destruct o as [m| |[| |]]; cbn [step fst].
+  intros H. destruct o as [m| |[| |]| |]; cbn [step fst].
   - apply (scaled_normalize q); exact H.
   - exists 1%Q. apply (scaled_unnormalize q); exact H.
   - exists q. exact H.
   - exists q. exact H.
   - exists q. apply scaled_read_dp. exact H.
+  - exists q. exact H.
+  - exists q. exact H.
 Qed.
 
 Lemma run_fst_app ops1 ops2 st :
@@ -741,22 +743,40 @@ Proof.
   intros a. apply read_scaled. exact H.
 Qed.
 
+(* after ANY history both encircled-energy methods work on the CURRENT profile, i.e. the fresh
+   profile over normalization_value: no interpolator state survives a normalisation change *)
+Lemma interpolators_see_current_profile ops :
+  exists q p, ~ (q == 0)%Q /\ veq (nv (fst (RUN ops init))) (Some q) /\
+              lveq p (map (vdiv (Some q)) raw_p) /\
+              snd (STEP ORi (fst (RUN ops init))) = ORc p /\
+              (snd (STEP OEe (fst (RUN ops init))) = OI p \/ 
+               (snd (STEP OEe (fst (RUN ops init))) = OErr /\ all_some p = None)).
+Proof.
+  destruct (inv_run ops init (ex_intro _ 1%Q inv_init)) as [q H].
+  set (st := fst (RUN ops init)) in *. exists q, (GP st).
+  destruct H as (Hq & Hnv & Hp & _). split; [exact Hq|]. split; [exact Hnv|]. split; [exact Hp|].
+  split; [reflexivity|]. cbn [step snd]. destruct (all_some (GP st)); [left; reflexivity|right; auto].
+Qed.
+
 Lemma fresh_over_one a : obs_eq (fresh a) (fresh_over 1%Q a).
 Proof.
   destruct a; cbn; [apply Forall2_refl_map, vdiv_one|apply Forall2_refl_map, ediv_one|].
   destruct raw_d; cbn; [apply Forall2_refl_map, vdiv_one|exact I].
 Qed.
 
-Definition is_read (o : op) : Prop := match o with ORead _ => True | _ => False end.
+(* reads: array reads and calls of the two encircled-energy methods *)
+Definition is_read (o : op) : Prop := match o with ORead _ | OEe | ORi => True | _ => False end.
 
 Lemma scaled_reads q rs st : Forall is_read rs -> scaled q st -> scaled q (fst (RUN rs st)).
 Proof.
   intros Hr. revert st. induction Hr as [|o r Ho Hr IH]; intros st H; cbn [run]; [exact H|].
   destruct (STEP o st) as [st1 ob] eqn:E1. destruct (RUN r st1) as [st2 obs] eqn:E2. cbn [fst].
   assert (H1 : scaled q st1).
-  { destruct o as [m| |a]; try contradiction.
-    replace st1 with (fst (STEP (ORead a) st)) by (rewrite E1; reflexivity).
-    destruct a; [exact H|exact H|apply scaled_read_dp; exact H]. }
+  { destruct o as [m| |a| |]; try contradiction.
+    - replace st1 with (fst (STEP (ORead a) st)) by (rewrite E1; reflexivity).
+      destruct a; [exact H|exact H|apply scaled_read_dp; exact H].
+    - replace st1 with (fst (STEP OEe st)) by (rewrite E1; reflexivity). exact H.
+    - replace st1 with (fst (STEP ORi st)) by (rewrite E1; reflexivity). exact H. }
   specialize (IH st1 H1). rewrite E2 in IH. exact IH.
 Qed.
 
